@@ -35,6 +35,12 @@ def seqs : List Filler → Filler
 /-- `f(_LEN, 0)`: the dry run -/
 def dry (f : Filler) : Nat := (f [] 0).2
 
+/-- placeholders the source translator (extract/encgen.go) emits for a construct it does not
+understand; they compile, and the tie theorems (Proofs/Tie/Enc.lean) then fail -/
+def unknown (_src : String) : Filler := nop
+def unknownNat (_src : String) : Nat := 0
+def unknownCond (_src : String) : Bool := false
+
 end Filler
 
 /-! ## wire types (`wiretypes.go`) -/
